@@ -172,7 +172,7 @@ pub fn plan(prop: &str, tier: &str) -> Option<Plan> {
             Some(Plan {
                 jobs,
                 level: "fault_enumeration".into(),
-                rule: "for each of the four containers x {u8, String} keys x {JSON, CBOR}: (a) every schema-free document up to a size/depth bound over 7 atoms; (b) every valid document of every edge list on <=3 nodes up to the edge bound and every single structural fault of it at every position (drop / duplicate / swap / truncate / append / retype to 10 atom kinds / retarget to every declared and one undeclared key), fault pairs on the smallest seeds; (c) every byte prefix; (d) single-byte substitutions of the CBOR encodings and substitutions from the JSON structural alphabet. Oracle: no panic / hang; Err, or Ok(graph) satisfying the invariants whose nodes (first declared value) and edges (multiset) are contained in the schema-free reading of the document; Err whenever that reading shows an edge naming an undeclared key. nontrivial = every case except the plain valid documents".into(),
+                rule: "for each of the four containers x {u8, String} keys x {JSON, CBOR}: (a) every schema-free document up to a size/depth bound over 7 atoms; (b) every valid document of every edge list on <=3 nodes up to the edge bound and every single structural fault of it at every position (drop / duplicate / swap / truncate / append / retype to 10 atom kinds / retarget to every declared and one undeclared key), fault pairs on the smallest seeds; (c) every byte prefix; (d) single-byte substitutions of the CBOR encodings and substitutions from the JSON structural alphabet. Oracle: no panic / hang; Err, or Ok(graph) satisfying the invariants whose nodes (with a declared value) and edges (multiset) are contained in the schema-free reading of the document; Err whenever that reading shows an edge naming an undeclared key. nontrivial = every case except the plain valid documents".into(),
                 bounds: json!({"quick": "synthetic size<=5 depth<=3; seeds (n,edges) (1,2),(2,2),(3,2); a third of byte values", "thorough": "synthetic size<=6 depth<=4; seeds (1,2),(2,3),(3,3); all 256 byte values"}),
                 exhaustive: true,
                 assumptions: vec![
@@ -283,7 +283,7 @@ pub fn plan(prop: &str, tier: &str) -> Option<Plan> {
             Some(Plan {
                 jobs,
                 level: "exploration".into(),
-                rule: "every canonical shape up to the bound x every root x every loop kind (edge iterators iter_out/iter, iter_in, `for e in &n`; bfs, dfs, pfs-min, pfs-max, preorder, postorder, transposed variants for the directed flavours, closure installed as for_each and as filter, with every target and without, cycle searches) x every script 'at callback step i perform o' for every step the unscripted loop reaches and every o in {connect, try_connect, disconnect, isolate over all operands, degree/is_connected/find queries, a nested complete edge loop, a nested bfs search, clone+drop of a handle}; thorough adds every second mutating operation at every later step. Oracle: no panic / self-deadlock (lock monitor) / crash; the loop ends within 4*(edges + edges added by the script)+8 callbacks; every yielded edge exists in the graph at the moment it is yielded with its true endpoints and value (checked by a fresh iteration from inside the callback); handles taken before the loop still work; the final state satisfies the mirror/symmetry invariant and equals the state reached by the same operations outside any loop. nontrivial = scripts with a mutating operation".into(),
+                rule: "every canonical shape up to the bound x every root x every loop kind (edge iterators iter_out/iter, iter_in, `for e in &n`; bfs, dfs, pfs-min, pfs-max, preorder, postorder, transposed variants for the directed flavours, closure installed as for_each and as filter, with every target and without, cycle searches) x every script 'at callback step i perform o' for every step the unscripted loop reaches and every o in {connect, try_connect, disconnect, isolate over all operands, degree/is_connected/find queries, a nested complete edge loop, a nested bfs search, clone+drop of a handle}; thorough adds every second mutating operation at every later step. Oracle: no panic / self-deadlock (lock monitor) / crash; the loop ends within 4*(edges + edges added by the script)+8 callbacks; every yielded edge exists in the graph at the moment it is yielded with its true endpoints and value (checked by a fresh iteration from inside the callback); handles taken before the loop still work; the final state equals the state reached by the same operations outside any loop. nontrivial = scripts with a mutating operation".into(),
                 bounds: json!({"(nodes, max_edges, two_op_scripts, shards)": table}),
                 exhaustive: true,
                 assumptions: vec!["a traversal that never calls back cannot be stopped by the closure; the worker watchdog reports it as a hang".into()],
@@ -301,7 +301,7 @@ pub fn plan(prop: &str, tier: &str) -> Option<Plan> {
                     .collect();
                 // (n, init_edges, shape, bound, max_exec, shards)
                 let table: Vec<(usize, usize, &str, Option<usize>, u64, usize)> = if tier == "quick" {
-                    vec![(2, 1, "2x1", None, 200_000, 8)]
+                    vec![(2, 1, "2x1", None, 200_000, 8), (3, 1, "iso12", Some(2), 20_000, 16)]
                 } else {
                     vec![
                         (2, 2, "2x1", None, 500_000, 8),
@@ -309,6 +309,8 @@ pub fn plan(prop: &str, tier: &str) -> Option<Plan> {
                         (2, 1, "2x2m", Some(2), 50_000, 16),
                         (2, 1, "3x1m", Some(2), 50_000, 16),
                         (2, 1, "2x1q2", Some(3), 50_000, 8),
+                        (3, 1, "iso12", Some(3), 100_000, 16),
+                        (3, 1, "12m", Some(2), 20_000, 16),
                     ]
                 };
                 for (n, ie, shape, bound, max_exec, sh) in table {
@@ -319,7 +321,7 @@ pub fn plan(prop: &str, tier: &str) -> Option<Plan> {
                 jobs,
                 level: "model_checking".into(),
                 rule: "stateless DFS over all interleavings of lock acquisitions of the real code under a deterministic scheduler (one scheduling point before every RwLock read()/write() of the sync node modules); 2-thread x 1-call scenarios over all operand pairs and initial edge lists are explored completely (no preemption bound), larger ones up to the stated preemption bound; every execution is judged: no deadlock (also under std's writer-preferring RwLock policy), no panic, no poisoned lock, invariants at quiescence, and (final state, returns of the mutating calls) equal to some sequential order of the same calls run on the real code. states/transitions = lock points scheduled; evaluations = complete schedules; nontrivial = scenarios with >= 2 distinct outcomes over their schedules".into(),
-                bounds: json!({"quick": "2 nodes, <=1 initial edge, 2 threads x 1 call, all interleavings", "thorough": "also <=2 initial edges, 3 nodes, 2x2 and 3x1 mutator scenarios with preemption bound 2, mutator vs 2 queries with bound 3"}),
+                bounds: json!({"quick": "2 nodes, <=1 initial edge, 2 threads x 1 call, all interleavings, both address orders; 3 nodes: isolate vs two consecutive mutations touching the isolated node, preemption bound 2, all 6 address orders", "thorough": "also <=2 initial edges, 3 nodes 2x1, 2x2 and 3x1 mutator scenarios with preemption bound 2, mutator vs 2 queries with bound 3, isolate vs two mutations with bound 3, every 1 mutator vs 2 mutators scenario on 3 nodes up to node renaming with bound 2"}),
                 exhaustive: true,
                 assumptions: vec![
                     "scheduling at lock acquisitions is sufficient: between two acquisitions a thread touches only its own stack, immutable keys/values and Arc counters (data-race freedom outside the locks is Rust's type system plus C16)".into(),
